@@ -260,6 +260,23 @@ func corpusC07() []*scen.Scenario {
 		s.InConv = false
 		out = append(out, s)
 	}
+	// a converter that is itself GENERATED in the same run and has an error result, used by a method
+	// without one (its error-ness comes from its own signature, not from the method that uses it)
+	for _, names := range [][2]string{{"AOuter", "ZInner"}, {"ZOuter", "AInner"}} {
+		id := "kc07gen" + strings.ToLower(names[0][:1])
+		b := scen.NewBuilder(nil, scen.Profile{}, id, id)
+		b.Struct("", "SI", "V int")
+		b.Struct("", "DI", "V int")
+		b.Struct("", "A", "X int", "In SI")
+		b.Struct("", "B", "X int", "In DI")
+		b.Func("func cvE(v int) (int, error) {\n\tvtr.Enter(\"cvE\", v)\n\tif vtr.Fail(\"cvE\") {\n\t\treturn 0, vtr.ErrOf(\"cvE\")\n\t}\n\treturn v + 1, nil\n}\n", true, "cvE")
+		inner := &scen.Method{Name: names[1], Src: scen.Param{Type: "SI"}, Dst: scen.Param{Type: "DI"}, HasErr: true, Notations: []scen.Notation{scen.N("conv", "cvE", "V", "V")}, ErrSites: []string{"cvE"}}
+		outer := &scen.Method{Name: names[0], Src: scen.Param{Type: "*A"}, Dst: scen.Param{Type: "*B"}, Notations: []scen.Notation{scen.N("conv", names[1], "In", "In")}, ErrSites: []string{names[1], "cvE"}}
+		s := b.Manual(outer, inner)
+		s.RegFuncs = append(s.RegFuncs, names[1])
+		s.InConv = false
+		out = append(out, s)
+	}
 	// callbacks whose "error" result is a CONCRETE pointer type implementing error: wiring them through an
 	// `err error` variable would turn a typed nil into a non-nil error. They must be rejected, or - if a
 	// future version accepts them - return a nil error when nothing fails (judged dynamically below).
